@@ -17,13 +17,11 @@ HARNESS = 'vpx.harness.c09'
 FUNCTIONS = ['bfg9000.environment.EnvVarDict.__init__', '__setitem__', '__delitem__', 'pop',
              'popitem', 'setdefault', 'update', 'clear', 'reset', 'changes', 'to_json', 'from_json',
              'bfg9000.environment.Toolchain.to_json/from_json', 'BasePath.to_json/from_json',
-             'bfg9000.environment.Environment.load (version gate)', 'Environment.reload',
+             'bfg9000.environment.Environment.load (version gate, upgrade chain 4..17, object construction)', 'Environment.reload',
              'bfg9000.build.load_toolchain']
-OUTSIDE = ['histories longer than the bound', 'symbolic variable *names*', 'upgrade chain of old '
-           'snapshot versions', 'Environment.save/load of the complete object (tool detection, '
-           'platform objects)', 'ambient environment of later invocations']
-STUBS = ['json.dump/json.load -> structural copy (_jsonish)', 'open() in environment.py -> in-memory '
-         'snapshot (version gate only)']
+OUTSIDE = ['histories longer than the bound', 'symbolic variable *names*', 'snapshot versions below 4 (no record of their format)', 'Environment.save of the complete object (tool detection)', 'ambient environment of later invocations']
+STUBS = ['json.dump/json.load -> structural copy (_jsonish)', 'open()/json.load in environment.py -> in-memory '
+         'snapshot', 'older snapshot versions are produced by _downgrade, the inverse of the format history documented in Environment.load (reference model; checked against the one old fixture the repository ships, version 4)']
 ASSUMPTIONS = ['the stdlib json module round-trips str/list/dict/bool/None faithfully']
 EXHAUSTIVE = True
 
@@ -34,6 +32,7 @@ def bounds(tier):
                            'reset'], 'keys': 3,
             'values': 'two arbitrary strings of length <= 2 (all Unicode)',
             'initial_maps': 'enumerated: {A}, {A,B} (quick) + {}, {A,B,C} (thorough)',
+            'snapshot_versions': '4..17, symbolic project argument / variable value (length <= %d), library mode and compdb switches' % (1 if tier == 'quick' else 2),
             'path_strings': 'length <= %d, 5 roots, directory flag' % (2 if tier == 'quick' else 3)}
 
 
@@ -65,7 +64,36 @@ def obligations(tier, kf):
         obs.append(Ob('j_path_json', {'N': n}, 1500, desc='path snapshot, |s| <= %d' % n))
     obs.append(Ob('j_path_json', {'N': 1}, 120).twin())
     obs.append(Ob('j_path_json', {'N': 2}, 600).mutant('path_json_no_dir'))
+    g = Ob('g_upgrade', {'VL': 1 if tier == 'quick' else 2}, 900,
+           desc='snapshots of every older format version 4..17 (inverse format history) load to the recorded configuration')
+    obs += [g, g.twin(), g.mutant('env_upgrade_v8_merged_into_v9')]
     obs.append(Ob('v_version_gate', {}, 300, desc='every snapshot version 0..40'))
     obs.append(Ob('v_version_gate', {}, 120).twin())
     obs.append(Ob('v_version_gate', {}, 300).mutant('env_version_gate_off_by_one'))
     return obs
+
+
+def conformance(tier):
+    """the inverse format history used by g_upgrade, at the one old version the repository ships a
+    real snapshot for (test/data/environment/v4): same keys, same value shapes"""
+    import importlib
+    import json
+    import os
+    import bfg9000
+    h = importlib.import_module(HARNESS)
+    fx = os.path.join(os.path.dirname(os.path.dirname(bfg9000.__file__)), 'test', 'data',
+                      'environment', 'v4', '.bfg_environ')
+    if not os.path.exists(fx):
+        return [('inverse format history vs the shipped v4 snapshot', 0, 1, [])]
+    real = json.load(open(fx))
+    mine = h._downgrade(h._v17('a', True, False, True, 'v'), real['version'])
+
+    def shape(x):
+        if isinstance(x, dict):
+            return {k: shape(v) for k, v in x.items() if k != 'variables'}
+        if isinstance(x, list):
+            return [shape(i) for i in x]
+        return type(x).__name__
+    a, b = shape(real['data']), shape(mine)
+    bad = [] if a == b else [('v4 snapshot shape', b, a)]
+    return [('inverse format history (_downgrade) vs the shipped v4 snapshot', 1 - len(bad), 0, bad)]
